@@ -33,13 +33,13 @@ Theorem C53_start_created_empty : forall c inU l, WF c ->
 Proof. exact start_empty. Qed.
 Print Assumptions C53_start_created_empty.
 
-(* the constructor as it is written (IdSetMeasurements, fillAllNodes, truncateExtras incl. the leaves it leaves set on the
-   right and the x86 value of its `>> 64`) produces a start state. PARTIAL: checked by computation for every capacity
+(* the constructor as it is written (IdSetMeasurements, fillAllNodes, truncateExtras incl. the last leaf it leaves set on the
+   right) produces a start state. PARTIAL: checked by computation for every capacity
    0..1100 (tree heights 2..6), not proved for all capacities *)
 Theorem C53_constructor_gives_start_state_upto_1100_partial : forall capacity l, capacity <= 1100 ->
   all_ready l -> (forall th, In th l -> theld th = []) ->
-  exists s0 ub, construct (measure capacity) true = (Some s0, ub) /\
-                Start (measure capacity) capacity (all_in_pool capacity) (mkState s0 l).
+  exists s0, construct (measure capacity) true = Some s0 /\
+             Start (measure capacity) capacity (all_in_pool capacity) (mkState s0 l).
 Proof. exact ctor_start_upto. Qed.
 Print Assumptions C53_constructor_gives_start_state_upto_1100_partial.
 
@@ -123,7 +123,7 @@ Print Assumptions C53_quiescent_tree_exact_partial.
 
 (* --- the hypotheses are satisfiable, non-trivially --- *)
 (* a three-level tree (capacity 130: 4 leaves, the last page in the third leaf) is a start state *)
-Example C53_ex_start_130 : exists s0 ub, construct (measure 130) true = (Some s0, ub) /\
+Example C53_ex_start_130 : exists s0, construct (measure 130) true = Some s0 /\
   Start (measure 130) 130 (all_in_pool 130) (mkState s0 [mkT Ready [] [OpPop; OpPushFirst]; mkT Ready [] [OpPop]]).
 Proof.
   apply C53_constructor_gives_start_state_upto_1100_partial; [lia | |].
@@ -134,7 +134,7 @@ Qed.
 (* two processes contend for the only page: one gets it, the other is refused, nobody crashes *)
 Example C53_ex_contention :
   match run_case 1 true [[OpPop]; [OpPop]] [0; 1; 0; 1; 0; 1; 0; 1; 0; 1] with
-  | OutRun st evs _ _ _ =>
+  | OutRun st evs _ _ =>
       map (fun th => theld th) (ths st) = [[1]; []] /\
       In (1, EvRetPop None) evs /\ In (0, EvRetPop (Some 1)) evs /\ sz (sh st) = 0
   | _ => False
@@ -144,7 +144,7 @@ Proof. vm_compute. repeat split; auto 20. Qed.
 (* created empty: two clients hold pages 1,3 and 2; after pushing and popping, quiescent, counts exact *)
 Example C53_ex_empty_start :
   match run_case 3 false [[OpPushFirst; OpPop]; [OpPushFirst]] [0; 1; 0; 1; 0; 1; 0; 1] with
-  | OutRun st evs _ d _ =>
+  | OutRun st evs _ d =>
       forallb (fun th => match tpc th with Done => true | _ => false end) (ths st) = true /\
       sz (sh st) + lenN (concat (map (fun th => theld th) (ths st))) = 3
   | _ => False
